@@ -343,6 +343,22 @@ func genSchema(rnd *rand.Rand, t *Table, must [][]string, want [][]string) Schem
 		sc.Keys = [][]string{{}}
 		return sc
 	}
+	// (see below: access paths starting with the second column of a wanted index are avoided)
+	var avoid1 []string
+	for _, ix := range want {
+		if len(ix) > 1 {
+			avoid1 = append(avoid1, ix[1])
+		}
+	}
+	var cands2 [][]string
+	for _, k := range cands {
+		if !(len(k) == 1 && contains(avoid1, k[0])) {
+			cands2 = append(cands2, k)
+		}
+	}
+	if len(cands2) > 0 {
+		cands = cands2
+	}
 	nk := 1 + rnd.Intn(2)
 	for i := 0; i < nk || len(sc.Keys) == 0; i++ {
 		k := shuffled(rnd, cands[rnd.Intn(len(cands))])
@@ -511,6 +527,8 @@ type Gen struct {
 	nfresh int
 	// options
 	noViews bool
+	// one wanted index per table and scenario (several would get in each other's way)
+	wantOf map[string][]string
 }
 
 var colPool = []string{"a", "b", "c", "d", "e", "f", "x", "y", "z"}
@@ -1190,6 +1208,9 @@ func (g *Gen) gen(d int) *Q {
 // order of the next column
 func (g *Gen) fixedOrder() *Q {
 	t := g.sc.Tables[g.rnd.Intn(len(g.sc.Tables))]
+	for try := 0; try < 5 && len(t.Rows) < 3; try++ {
+		t = g.sc.Tables[g.rnd.Intn(len(g.sc.Tables))]
+	}
 	cols := shuffled(g.rnd, t.Cols)
 	// c2: preferably a column that is not unique (so it cannot be a key on its own)
 	single := map[string]bool{}
@@ -1205,11 +1226,36 @@ func (g *Gen) fixedOrder() *Q {
 		}
 	}
 	c2, c1 := cols[0], cols[1]
+	if g.wantOf == nil {
+		g.wantOf = map[string][]string{}
+	}
+	if w := g.wantOf[t.Name]; w != nil {
+		c1, c2 = w[0], w[1]
+	} else {
+		g.wantOf[t.Name] = []string{c1, c2}
+	}
 	src := g.tableQ(t.Name)
 	src.want = map[string][]string{t.Name: {c1, c2}}
-	d := g.sc.dom[c1]
-	vs := []Val{d[g.rnd.Intn(len(d))], d[g.rnd.Intn(len(d))]}
-	if g.rnd.Intn(3) == 0 {
+	// several DISTINCT values of c1, taken from the data where possible
+	i1 := 0
+	for i, c := range t.Cols {
+		if c == c1 {
+			i1 = i
+		}
+	}
+	var vs []Val
+	for _, ri := range g.rnd.Perm(len(t.Rows)) {
+		v := t.Rows[ri][i1]
+		dup := false
+		for _, x := range vs {
+			dup = dup || x == v
+		}
+		if !dup && len(vs) < 3 {
+			vs = append(vs, v)
+		}
+	}
+	for len(vs) < 2 {
+		d := g.sc.dom[c1]
 		vs = append(vs, d[g.rnd.Intn(len(d))])
 	}
 	var q *Q = &Q{Op: "where", Src: src, E: &Ex{K: "in", A: &Ex{K: "col", C: c1}, Vs: vs}, cols: src.cols, kinds: src.kinds}
